@@ -14,7 +14,11 @@ pub fn segment(fragment: &[u8], first_seq: u8) -> Vec<Vec<u8>> {
     let mut out = Vec::with_capacity(n);
     for (i, chunk) in fragment.chunks(249).enumerate() {
         let mut s = Vec::with_capacity(chunk.len() + 1);
-        s.push(header(i + 1 == n, i == 0, first_seq.wrapping_add(i as u8) & 0x3F));
+        s.push(header(
+            i + 1 == n,
+            i == 0,
+            first_seq.wrapping_add(i as u8) & 0x3F,
+        ));
         s.extend_from_slice(chunk);
         out.push(s);
     }
